@@ -142,6 +142,32 @@ class Gen12(gen_c10.Gen):
         self.emit(1, "return b")
         self.emit(0, "")
 
+    def lambda_fstring_section(self):
+        r = self.rng
+        self.features.add("lambda_fstring")
+        fn = self.fresh("lf")
+        self.emit(0, f"def {fn}(a, b: {self.union_annot()}, *rest):")
+        lambdas = ["lambda: a", "lambda x: x + b", "lambda x, y=b: (x, y)", "lambda *p, **k: (p, k, rest)", "lambda x, /, y, *, z=1: x.nope",
+                   "(lambda q: q(q))(lambda q: q)", "lambda: (yield)", "lambda x: lambda y: x[y]", "lambda: undefined_in_lambda"]
+        fstrs = ["f'{a}'", "f'{a!r:>10} {b=}'", "f'{a:{b}}'", "f'{a.nope} {b[0]}'", "f'{rest[0]:.{a}f}'", "f'{{literal}} {a}' f'{b}'",
+                 "f'{(lambda: a)()}'", "f'{undefined_in_fstring}'", "f'{a if b else rest!s}'", "f'{len(a):03d}'", "f'{a + b}' + 1"]
+        for _ in range(r.randrange(2, 5)):
+            lam = r.choice(lambdas)
+            form = r.randrange(4)
+            if form == 0:
+                self.emit(1, f"reveal_type({lam})")
+            elif form == 1:
+                self.emit(1, f"reveal_type(({lam})({', '.join(r.sample(LITS[:10], r.randrange(0, 3)))}))")
+            elif form == 2:
+                self.emit(1, f"sorted(rest, key={lam})")
+            else:
+                self.emit(1, f"{r.choice(NAMES[:8])} = {lam}")
+        for _ in range(r.randrange(2, 5)):
+            fs = r.choice(fstrs)
+            self.emit(1, r.choice([f"reveal_type({fs})", f"print({fs})", f"{r.choice(NAMES[:8])} = {fs}", f"if {fs}: pass"]))
+        self.emit(1, "return a")
+        self.emit(0, "")
+
     def paramspec_section(self):
         r = self.rng
         self.features.add("paramspec")
@@ -341,6 +367,7 @@ class Gen12(gen_c10.Gen):
             self.decorator_section, self.expr_section, self.expr_section, self.match_section, self.async_section, self.class_odd_section,
             self.literal_union_section, self.literal_union_section, self.typeguard_section, self.typeguard_section,
             self.sysinfo_section, self.global_section, self.bounds_section, self.bounds_section,
+            self.lambda_fstring_section, self.lambda_fstring_section, self.match_section,
         ]
         for _ in range(r.randrange(3, 7)):
             r.choice(pieces)()
